@@ -267,6 +267,120 @@ mod ignore {
 	}
 }
 
+mod cliflags {
+	use super::*;
+	use std::{ffi::OsString, path::{Path, PathBuf}, sync::OnceLock};
+	use watchexec::filter::Filterer;
+	use watchexec_cli::verif::{args_from, WatchexecFilterer};
+	use watchexec_events::{
+		filekind::{CreateKind, DataChange, FileEventKind, ModifyKind},
+		Event, FileType, Priority, Source, Tag,
+	};
+
+	static BASE: OnceLock<PathBuf> = OnceLock::new();
+
+	/// One shared, read-only project + fake home; the environment is process-wide, so it is set once.
+	pub fn setup(scratch: &Path) {
+		BASE.get_or_init(|| {
+			let base = scratch.canonicalize().unwrap().join("cli");
+			let w = |p: &str, c: &str| {
+				let p = base.join(p);
+				std::fs::create_dir_all(p.parent().unwrap()).unwrap();
+				std::fs::write(p, c).unwrap();
+			};
+			std::fs::create_dir_all(base.join("proj/.git")).unwrap();
+			std::fs::create_dir_all(base.join("home")).unwrap();
+			w("proj/.git/HEAD", "ref: refs/heads/main\n");
+			w("proj/.gitignore", "by_vcs_project\n");
+			w("proj/.ignore", "by_generic_project\n");
+			w("xdg/git/ignore", "by_vcs_global\n");
+			w("xdg/watchexec/ignore", "by_app_global\n");
+			w("explicit_ignores", "by_cli_ignore_file\n");
+			w("explicit_filters", "*.keep\n");
+			for (k, _) in std::env::vars_os() {
+				let ks = k.to_string_lossy().to_string();
+				if ks.starts_with("GIT_") || ks.starts_with("WATCHEXEC_") || ks == "APPDATA" || ks == "USERPROFILE" {
+					std::env::remove_var(k);
+				}
+			}
+			std::env::set_var("HOME", base.join("home"));
+			std::env::set_var("XDG_CONFIG_HOME", base.join("xdg"));
+			std::env::set_var("GIT_CONFIG_NOSYSTEM", "1");
+			std::env::set_current_dir(base.join("proj")).unwrap();
+			base
+		});
+	}
+
+	fn ev(path: PathBuf, kind: FileEventKind) -> Event {
+		Event {
+			tags: vec![
+				Tag::Source(Source::Filesystem),
+				Tag::FileEventKind(kind),
+				Tag::Path { path, file_type: Some(FileType::File) },
+			],
+			metadata: Default::default(),
+		}
+	}
+
+	pub async fn run(case: &Value, _scratch: &Path) -> Value {
+		let base = BASE.get().unwrap();
+		let proj = base.join("proj");
+		let mut argv: Vec<OsString> = vec!["watchexec".into(), "--project-origin".into(), proj.clone().into(), "-w".into(), proj.clone().into()];
+		for f in case["flags"].as_array().unwrap() {
+			argv.push(format!("--{}", f.as_str().unwrap()).into());
+		}
+		let opt = case["opt"].as_str().unwrap();
+		let mut explicit = "plain2.txt";
+		match opt {
+			"ignore" => { argv.push("--ignore".into()); argv.push("by_cli_ignore".into()); explicit = "by_cli_ignore"; }
+			"ignore-file" => { argv.push("--ignore-file".into()); argv.push(base.join("explicit_ignores").into()); explicit = "by_cli_ignore_file"; }
+			"filter" => { argv.push("--filter".into()); argv.push("*.keep".into()); explicit = "explicit.keep"; }
+			"filter-file" => { argv.push("--filter-file".into()); argv.push(base.join("explicit_filters").into()); explicit = "explicit.keep"; }
+			"exts" => { argv.push("--exts".into()); argv.push("keep".into()); explicit = "explicit.keep"; }
+			"fs-events" => { argv.push("--fs-events".into()); argv.push("create".into()); }
+			_ => {}
+		}
+		argv.push("--".into());
+		argv.push("true".into());
+		let shown: Vec<String> = argv.iter().map(|a| a.to_string_lossy().to_string()).collect();
+
+		let args = match args_from(argv).await {
+			Ok(a) => a,
+			Err(e) => return json!({"error": format!("args: {e}"), "argv": shown}),
+		};
+		let filterer = match WatchexecFilterer::new(&args).await {
+			Ok(f) => f,
+			Err(e) => return json!({"error": format!("filterer: {e:?}"), "argv": shown}),
+		};
+		let create = FileEventKind::Create(CreateKind::File);
+		let modify = FileEventKind::Modify(ModifyKind::Data(DataChange::Content));
+		let check = |name: &str, kind: FileEventKind| -> Value {
+			match filterer.check_event(&ev(proj.join(name), kind), Priority::Normal) {
+				Ok(b) => json!(b),
+				Err(e) => json!(format!("error: {e}")),
+			}
+		};
+		let mut sources = serde_json::Map::new();
+		for (src, file) in [
+			("vcs_project", "by_vcs_project"),
+			("generic_project", "by_generic_project"),
+			("vcs_global", "by_vcs_global"),
+			("app_global", "by_app_global"),
+			("builtin", "by_builtin.pyc"),
+		] {
+			sources.insert(src.into(), check(file, create));
+		}
+		json!({
+			"sources": sources,
+			"plain": check("plain.txt", create),
+			"explicit": check(explicit, create),
+			"create": check("plain.txt", create),
+			"modify": check("plain.txt", modify),
+			"argv": shown,
+		})
+	}
+}
+
 fn main() {
 	let args: Vec<String> = std::env::args().collect();
 	let kind = args[1].clone();
@@ -281,6 +395,10 @@ fn main() {
 		.unwrap()
 		.join("scratch");
 	std::fs::create_dir_all(&scratch).unwrap();
+
+	if kind == "cliflags" {
+		cliflags::setup(&scratch);
+	}
 
 	let file = std::fs::File::open(cases_path).expect("cases file");
 	let cases: Vec<Value> = std::io::BufReader::new(file)
@@ -319,6 +437,7 @@ fn main() {
 						match kind.as_str() {
 							"origins" => origins::run(case, &scratch).await,
 							"ignore" => ignore::run(case, &scratch).await,
+							"cliflags" => cliflags::run(case, &scratch).await,
 							other => panic!("unknown kind {other}"),
 						}
 					})
